@@ -205,6 +205,8 @@ def draw_options(rng, fmt, trajs, ref, meta, work, force=None):
     if on("motion_filter", .25):
         d = float(meta["ext"] * 10.0**rng.uniform(-2, -0.5)) if rng.random() < .8 else 0.0
         a = float(rng.uniform(0, 45))
+        if rng.random() < .2:
+            a = float([270.0, 360.0, 999.0, 181.0, 540.0][rng.integers(5)])  # beyond a half turn: the angle criterion is switched off
         o["motion_filter"] = (d, a)
         argv += ["--motion_filter", repr(d), repr(a)]
     if on("merge", .2):
